@@ -266,6 +266,19 @@ def _wa_server(spec):
             return None
         up = [m for m in ok if m >= pf]
         return up[0] if up else ok[-1]
+    def gex_of(ms):
+        ms = sorted(ms)
+
+        def g(mn, pf, mx):
+            ok = [m for m in ms if mn <= m <= mx]
+            if not ok:
+                return None
+            up = [m for m in ok if m >= pf]
+            return up[0] if up else ok[-1]
+        return g
+    if spec.get('moduli_by_alg'):       # a group policy of its own per group-exchange algorithm (seed C05-11)
+        gex = {a: gex_of(ms) for a, ms in spec['moduli_by_alg'].items()}
+        mods = True
     return fn.simple_server(kex=tuple(spec['kex']), key=tuple(spec['key']), enc=tuple(spec['enc']), mac=tuple(spec['mac']), banner=spec['banner'].encode(), hostkeys=hostkeys, gex=gex if mods else None)
 
 
@@ -324,6 +337,13 @@ def _wa_drifts(r, spec):
         s2 = copy.deepcopy(spec)
         s2['moduli'] = [r.choice([m for m in (2048, 3072, 4096) if m not in spec['moduli']])]
         out.append((s2, 'Group exchange', 'modulus'))
+        gexs = [k for k in spec['kex'] if 'group-exchange' in k]
+        if len(gexs) == 2:
+            # the drift touches the group of one algorithm only
+            for victim in gexs:
+                s3 = copy.deepcopy(spec)
+                s3['moduli_by_alg'] = {k: (list(s2['moduli']) if k == victim else list(spec['moduli'])) for k in gexs}
+                out.append((s3, 'Group exchange', 'modulus-one-algorithm'))
     for cat, fieldname in (('kex', 'Key exchanges'), ('key', 'Host keys'), ('enc', 'Ciphers'), ('mac', 'MACs')):
         extra = {'kex': 'ecdh-sha2-nistp256', 'key': 'ecdsa-sha2-nistp256', 'enc': 'aes192-ctr', 'mac': 'hmac-sha1'}[cat]
         s2 = copy.deepcopy(spec)
@@ -355,7 +375,24 @@ def _wa_judge(spec, drifted, field, fail, tmpdir, tag):
             return {e['algorithm']: e.get('keysize') for e in doc['kex'] if 'keysize' in e}
         except Exception:
             return None
+    def stated(ms, openssh):
+        # C12's statement for a moduli policy: the smallest modulus handed out over the fixed probe sequence; for OpenSSH ending at 2048 the follow-up probe
+        ms = sorted(ms)
+
+        def f(mn, pf, mx):
+            ok = [m for m in ms if mn <= m <= mx]
+            up = [m for m in ok if m >= pf]
+            return (up[0] if up else ok[-1]) if ok else None
+        ans = [f(512, 1024, 1536)] + [f(b, b, b) for b in (512, 768, 1024, 1536, 2048, 3072, 4096)]
+        pos = [a for a in ans if a]
+        m = min(pos) if pos else None
+        return f(2048, 3072, 4096) if (m == 2048 and openssh) else m
     for d, f_, kind in drifted:
+        if kind == 'modulus-one-algorithm':
+            # independent of what the tool measures: the two servers differ in the group one algorithm is served from
+            osh = 'OpenSSH' in spec['banner']
+            if all(stated(d['moduli_by_alg'][a], osh) == stated(spec['moduli'], osh) for a in d['moduli_by_alg']):
+                continue
         if kind == 'modulus':
             # only a modulus the standard audit measures on both servers, with different results, is a drift the policy can see
             m0, m1 = measured(spec), measured(d)
